@@ -39,6 +39,7 @@ func runC13(c *fw.Ctx, idx int) fw.Result {
 	appendSNP := r.Chance(0.5)
 	var perSeq, header string
 	var runAgg func(th float64) (string, error)
+	var binSnps func(th float64, want string)
 	var files map[string]string
 	var argv []string
 	var ac annoCase
@@ -75,6 +76,16 @@ func runC13(c *fw.Ctx, idx int) fw.Result {
 		}
 		header = "SNP,frequency"
 		runAgg = func(th float64) (string, error) { return run.SNPs(refTxt, aln, hard, true, th) }
+		binSnps = func(th float64, want string) {
+			thArg := strconv.FormatFloat(th, 'g', -1, 64)
+			if th == 1 && idx%2 == 0 {
+				thArg = "1.0"
+			}
+			binSample(c, &res, idx, "snps-aggregate", map[string]string{"ref.fasta": refTxt, "aln.fasta": aln}, func(p func(string) string) []string {
+				a := []string{"snps", "-r", p("ref.fasta"), "-q", p("aln.fasta"), "--aggregate", "--threshold", thArg}
+				return boolFlag(a, "hard-gaps", hard, idx%3 == 0)
+			}, nil, []string{"", "-o"}[idx%2], want)
+		}
 		posOf = func(m string) (int, int, bool) {
 			if len(m) < 3 {
 				return 0, 0, false
@@ -91,7 +102,7 @@ func runC13(c *fw.Ctx, idx int) fw.Result {
 		vp := gen.DefaultVarProfile()
 		vp.Recur = true
 		vp.PSub = 0.03
-		opts := gen.AnnoOpts{MaxFeats: 4, AllowUnnamed: true, AllowSlip: true, SplitCodons: true}
+		opts := gen.AnnoOpts{MaxFeats: 4, AllowUnnamed: true, AllowSlip: true, SplitCodons: true, Rotate: true, NoStop: true}
 		ac = makeAnnoCase(r, c.Thorough(), []string{"gb", "gff"}[r.Intn(2)], form, vp, 50, opts)
 		if form == "sam" {
 			// make SAM queries share mutations: derive them from a common mutated genome
@@ -200,6 +211,7 @@ func runC13(c *fw.Ctx, idx int) fw.Result {
 		ths = append(ths, thr{"above", f + 1e-12}, thr{"below", f - 1e-12})
 	}
 	thKind := ""
+	binDone := map[string]bool{}
 	boundary := false
 	got := map[string]string{}
 	baseArgv := argv
@@ -267,9 +279,15 @@ func runC13(c *fw.Ctx, idx int) fw.Result {
 			}
 		}
 		res.Count("thresholds_"+t.kind, 1)
-		if idx%15 == 7 && t.kind == "equal" && cmd != "snps" && len(res.Viol) == 0 {
+		if idx%5 == 2 && (t.kind == "equal" || t.kind == "one" || t.kind == "zero") && !binDone[t.kind] && len(res.Viol) == 0 {
 			// the same --aggregate run through the binary, threshold printed with round-trip precision
-			ac.binVariants(c, &res, idx, -1, -1, true, th, appendSNP, 2, agg)
+			// (once per threshold kind: an occurring frequency, exactly 1, exactly 0)
+			binDone[t.kind] = true
+			if cmd == "snps" {
+				binSnps(th, agg)
+			} else {
+				ac.binVariants(c, &res, idx, -1, -1, true, th, appendSNP, 2, agg)
+			}
 		}
 		if len(res.Viol) > 0 {
 			break
